@@ -83,7 +83,9 @@ class mysql41(uh.StaticHandler):
 
     @classmethod
     def _norm_hash(cls, hash):
-        return hash.upper()
+        # NOTE: only ascii text is case-normalized -- str.upper() expands some
+        #       non-ascii characters into hex digits (e.g. u"\ufb00" -> "FF").
+        return hash.upper() if hash.isascii() else hash
 
     def _calc_checksum(self, secret):
         # FIXME: no idea if mysql has a policy about handling unicode passwords
